@@ -81,6 +81,8 @@ TRUSTED = [
     "the ragged columns use the C05 refinement lemmas (Proofs/MntProofs.v mnt_select_refines_proof, Proofs/MetProofs.v "
     "met_select_refines_proof) -- no section hypothesis is left; the theorem statement itself is additionally evaluated "
     "on every correspondence case (c07_stmt)",
+    "chain law (Props/C07.v getitem_chain_composes): its executable form c07_compose_check compares the frame the "
+    "implementation returned at the end of every chain with ONE selection of the composed positions on the model",
     "store model coq/Model/FrameStore.v of _normalize_index (clone, then in-place +=): its executable form "
     "c07_index_store_check is compared with the content of the caller's index tensor after every selection",
     "every index object passed to a selection is snapshotted and must be unchanged afterwards; one index object is "
@@ -263,7 +265,7 @@ def exhaustive(rng):
 
 
 def generate(rng, tier):
-    n = 900 if tier == "quick" else 20000
+    n = 800 if tier == "quick" else 20000
     cases = [gen_case(rng, tier) for _ in range(n)]
     if tier == "thorough":
         cases += exhaustive(rng)
@@ -712,6 +714,12 @@ def coq_term(case, obs):
     chain = C.clist(case["chain"][:len(steps)], R.coq_index)
     o = C.clist([obs["start"]] + [s.get("frame") if s["ok"] else None for s in steps], F.coq_obs)
     term = f"(c07_check {expr} {chain} {o} && c07_stmt {expr} {chain})"
+    # executable form of Props/C07.v getitem_chain_composes: the END of the chain = one selection of the composed positions
+    full = obs["steps"]
+    if len(steps) == len(full) and full and (len(full) == len(case["chain"]) or not full[-1]["ok"]):
+        used = C.clist(case["chain"][:len(full)], R.coq_index)
+        final = F.coq_obs(full[-1].get("frame") if full[-1]["ok"] else None)
+        term = f"({term} && c07_compose_check {expr} {used} {final})"
     # executable form of Props/C07.v getitem_leaves_caller_index: the store model's content of the caller's index
     # tensor after the selection = what the implementation left in it
     containers = sum(len(f["keys"]) if f["kind"] == "dict" else (1 if f["kind"] in ("mnt", "met") else 0)
